@@ -57,7 +57,13 @@ import ast
 
 EAGER_CALLS = {'len', 'list', 'tuple', 'set', 'frozenset', 'sorted', 'sum',
                'min', 'max', 'any', 'all', 'reduce', 'dict', 'reversed',
-               'enumerate_all', 'FrozenDict', 'deque'}
+               'enumerate_all', 'FrozenDict', 'deque',
+               # itertools / collections / heapq functions that read their
+               # argument to the end before producing anything
+               'product', 'permutations', 'combinations',
+               'combinations_with_replacement', 'Counter', 'OrderedDict',
+               'nlargest', 'nsmallest', 'heapify', 'fsum', 'bytes',
+               'bytearray', 'array'}
 EAGER_METHODS = {'extend', 'update', 'join', 'extendleft', 'union',
                  'intersection', 'difference', 'symmetric_difference',
                  'issubset', 'issuperset'}
@@ -152,7 +158,11 @@ def eager_consumptions(fnode, tainted, lazy_callbacks, for_loops=True):
     for n in ast.walk(fnode):
         if isinstance(n, ast.Call):
             fn = _fname(n)
-            if fn in EAGER_CALLS and isinstance(n.func, ast.Name) and any(
+            if fn in EAGER_CALLS and (isinstance(n.func, ast.Name) or (
+                    isinstance(n.func, ast.Attribute) and isinstance(
+                        n.func.value, ast.Name) and n.func.value.id in (
+                            'itertools', 'collections', 'heapq', 'math',
+                            'functools', 'utils'))) and any(
                     expr_tainted(a) for a in n.args):
                 out.append((n.lineno, '%s(...) on an unlimited lazy value'
                             % fn))
